@@ -1213,6 +1213,10 @@ func nilCases(g *Gen) []*R {
 		{Op: "pkgmsg", Kids: []*R{nilR()}, S: []string{"m"}},
 		{Op: "pkgstack", Kids: []*R{nilR()}},
 		{Op: "transfer", Kids: []*R{nilR()}, Procs: [][]string{{}}},
+		// message wrappers over a cause whose whole text is empty: "prefix: " (the separator stays)
+		{Op: "wrap", Kids: []*R{{Op: "new", S: []string{""}}}, S: []string{"ctx"}},
+		{Op: "withmessage", Kids: []*R{{Op: "newf", Fmt: []FP{{Kind: "lit", S: ""}}}}, S: []string{"ctx"}},
+		{Op: "wrapf", Kids: []*R{{Op: "hint", S: []string{"h"}, Kids: []*R{{Op: "new", S: []string{""}}}}}, Fmt: f},
 		// leaf constructors are never nil
 		{Op: "new", S: []string{""}},
 		{Op: "new", S: []string{"x"}},
@@ -1233,7 +1237,12 @@ func colonOnlyShapes() []*R {
 	}
 	a := mk(&R{Op: "stdnew", S: []string{"boom"}})
 	b := mk(&R{Op: "new", S: []string{"disk full"}})
-	return []*R{a, {Op: "wrap", S: []string{"ctx"}, Kids: []*R{cloneR(a)}}, b, {Op: "hint", S: []string{"h"}, Kids: []*R{cloneR(b)}}}
+	// a wrapper without encoder whose own prefix already contains ": " + the text of its cause: the prefix is
+	// everything before the LAST occurrence
+	rep := &R{Op: "fmterrorf", Fmt: []FP{{Kind: "lit", S: "cleanup: timeout: "}, {Kind: "err", Verb: "w", R: &R{Op: "stdnew", S: []string{"timeout"}}}}}
+	rep2 := &R{Op: "fmterrorf", Fmt: []FP{{Kind: "lit", S: "op: x: x: "}, {Kind: "err", Verb: "w", R: &R{Op: "new", S: []string{"x"}}}}}
+	return []*R{a, {Op: "wrap", S: []string{"ctx"}, Kids: []*R{cloneR(a)}}, b, {Op: "hint", S: []string{"h"}, Kids: []*R{cloneR(b)}},
+		rep, {Op: "wrap", S: []string{"ctx"}, Kids: []*R{cloneR(rep)}}, rep2}
 }
 
 // deepChains: single-cause chains far deeper than anything the random streams hold (a limit on the number of
